@@ -20,6 +20,10 @@ static void vf_live(const char *tag){
 #ifdef VARIANT_CNT
   printf("live%s blocks=%ld bytes=%ld badfree=%ld total=%ld\n",tag,vf_blocks,vf_bytes,vf_badfree,vf_total);
   if(getenv("VF_DUMP")){ unsigned h; int k=0; for(h=0;h<VF_TAB&&k<12;h++) if(vf_ptr[h]&&vf_ptr[h]!=(void*)1){ printf("  leaked seq=%ld size=%zu\n",vf_seq[h],vf_sz[h]); k++; } }
+#elif defined(__SANITIZE_ADDRESS__)
+  /* the counting allocator sees libvorbis' own blocks only; what vorbisfile asked libogg for (stream and sync state buffers) is found by the leak
+     scanner of the sanitizer run: blocks no pointer leads to any more, each reported once (needs ASAN_OPTIONS=detect_leaks=1, otherwise 0) */
+  { extern int __lsan_do_recoverable_leak_check(void); fflush(stdout); printf("live%s lsan=%d\n",tag,__lsan_do_recoverable_leak_check()); }
 #else
   printf("live%s n/a\n",tag);
 #endif
